@@ -445,6 +445,10 @@ func (fd *Client) BatchWriteItem(ctx context.Context, input *dynamodb.BatchWrite
 		return &dynamodb.BatchWriteItemOutput{}, err
 	}
 
+	if err := checkBatchWriteTargets(fd, input); err != nil {
+		return &dynamodb.BatchWriteItemOutput{}, err
+	}
+
 	unprocessed := map[string][]types.WriteRequest{}
 
 	for table, reqs := range input.RequestItems {
@@ -541,6 +545,31 @@ func validateBatchWriteItemInput(input *dynamodb.BatchWriteItemInput) error {
 
 	if count > batchRequestsLimit {
 		return &smithy.GenericAPIError{Code: "ValidationException", Message: "Too many items requested for the BatchWriteItem call"}
+	}
+
+	return nil
+}
+
+// checkBatchWriteTargets makes sure that every request addresses an existing
+// table with a well formed key, so that a rejected batch writes nothing
+func checkBatchWriteTargets(fd *Client, input *dynamodb.BatchWriteItemInput) error {
+	for tableName, reqs := range input.RequestItems {
+		table, err := fd.getTable(tableName)
+		if err != nil {
+			return mapKnownError(err)
+		}
+
+		for _, req := range reqs {
+			if req.PutRequest != nil {
+				err = table.ValidateWriteKeys(mapDynamoToTypesMapItem(req.PutRequest.Item), true)
+			} else {
+				err = table.ValidateWriteKeys(mapDynamoToTypesMapItem(req.DeleteRequest.Key), false)
+			}
+
+			if err != nil {
+				return &smithy.GenericAPIError{Code: "ValidationException", Message: err.Error()}
+			}
+		}
 	}
 
 	return nil
